@@ -6,10 +6,12 @@ Import ListNotations.
 Open Scope N_scope.
 
 (* any number of sessions (open, append a batch, restart) on a fresh log of any size, as long as the
-   total stays within the log's capacity: the next open returns every tombstone ever appended, in
-   order, and resumes right behind the last one - so nothing appended earlier is ever overwritten *)
+   total stays within the log's capacity: the next open returns every tombstone ever appended, in the
+   order written, and resumes right behind the last one - so nothing appended earlier is ever overwritten.
+   The sequences are ANY non-zero numbers, in any order: with several flushers the log is written batch by batch,
+   not in sequence order (finding F22: the pinned snapshot resumed behind the newest tombstone) *)
 Theorem c10_recovered : forall pages batches,
-  increasing 0 (concat batches) ->
+  nonzero (concat batches) ->
   N.of_nat (length (concat batches)) + 1 <= pages * SLOTS_PER_PAGE ->
   let dev := sessions false pages (fresh_device pages) batches in
   snd (topen false pages dev) = concat batches /\
@@ -17,10 +19,20 @@ Theorem c10_recovered : forall pages batches,
 Proof. exact all_tombstones_survive. Qed.
 Print Assumptions c10_recovered.
 
+(* in particular for the sequences the engine hands out to one flusher: positive and increasing *)
+Theorem c10_recovered_in_sequence_order : forall pages batches,
+  increasing 0 (concat batches) ->
+  N.of_nat (length (concat batches)) + 1 <= pages * SLOTS_PER_PAGE ->
+  let dev := sessions false pages (fresh_device pages) batches in
+  snd (topen false pages dev) = concat batches.
+Proof. intros pages batches H Hc. apply all_tombstones_survive; [eapply increasing_nonzero; eauto|assumption]. Qed.
+Print Assumptions c10_recovered_in_sequence_order.
+
 (* the n-th tombstone ever appended sits in slot n: the device is [empty; t1; ...; tn; empty...] *)
 Theorem c10_layout : forall pages batches ts pad,
-  increasing 0 (ts ++ concat batches) ->
+  nonzero (ts ++ concat batches) ->
   N.of_nat (length ts) + N.of_nat (length (concat batches)) + 1 <= pages * SLOTS_PER_PAGE ->
+  N.of_nat (length (layout ts pad)) = pages * SLOTS_PER_PAGE ->
   (length (concat batches) <= pad)%nat ->
   sessions false pages (layout ts pad) batches = layout (ts ++ concat batches) (pad - length (concat batches)).
 Proof. exact sessions_layout. Qed.
@@ -36,6 +48,16 @@ Theorem c10_refuted_F5 :
   existsb (fun t => t_seq t =? 45) (snd (topen true 4 dev)) = false.
 Proof. vm_compute. split; reflexivity. Qed.
 Print Assumptions c10_refuted_F5.
+
+(* F22 (fixed by 0eebaad): two flushers wrote the tombstones 1, 3, 2 in that order; the old rule (resume behind the
+   newest: the model with [bug_tail] on a one-page log, where its page arithmetic is the identity) puts the next session's
+   tombstone 4 over tombstone 2; the repaired rule keeps all four *)
+Definition mks (l : list N) : list tomb := map (fun i => mkTomb (i * 7) i) l.
+Theorem c10_refuted_F22 :
+  map t_seq (snd (topen true 1 (sessions true 1 (fresh_device 1) [mks [1; 3; 2]; mks [4]]))) = [1; 3; 4] /\
+  map t_seq (snd (topen false 1 (sessions false 1 (fresh_device 1) [mks [1; 3; 2]; mks [4]]))) = [1; 3; 2; 4].
+Proof. vm_compute. split; reflexivity. Qed.
+Print Assumptions c10_refuted_F22.
 
 Example c10_nonvacuous :
   let dev := sessions false 4 (fresh_device 4) [mk 1 300; mk 301 10] in
